@@ -219,7 +219,11 @@ func vc08Fill(v reflect.Value, t *vc08Tape, depth int) {
 		m := reflect.MakeMap(ty)
 		for i := 0; i < n; i++ {
 			k := reflect.New(ty.Key()).Elem()
-			k.SetString(vc08GenKeys[t.next(len(vc08GenKeys))])
+			nk := len(vc08GenKeys)
+			if t.onto {
+				nk = 3 // few keys: the destination and the decoded value meet on the same key often
+			}
+			k.SetString(vc08GenKeys[t.next(nk)])
 			e := reflect.New(ty.Elem()).Elem()
 			vc08Fill(e, t, depth+1)
 			m.SetMapIndex(k, e)
@@ -440,8 +444,9 @@ func vc08RunOnto(out *vOut, c vc08Case) {
 func vc08GenOnto(r *vRand) vc08Case {
 	names := vc08TypeList()
 	typ := names[r.intn(len(names))]
-	if r.chance(30) {
-		typ = []string{"Pin", "PinInfo", "GlobalPinInfo", "ID", "RepoGC", "GlobalRepoGC", "ConnectGraph", "AddParams"}[r.intn(8)]
+	if r.chance(45) {
+		// maps of pointers to structs, slices of structs, pointers to structs, interface elements
+		typ = []string{"GlobalPinInfo", "GlobalRepoGC", "GlobalPinInfo", "GlobalRepoGC", "RepoGC", "ID", "Pin", "PinInfo", "ConnectGraph", "AddParams"}[r.intn(10)]
 	}
 	// the destination mostly full, the decoded value mostly sparse (empty members, nil pointers, shorter lists, other keys)
 	_, ta, _ := vc08BuildValueOpt(typ, nil, r.fork(), true, []int{0, 0, 10, 40}[r.intn(4)])
